@@ -34,6 +34,7 @@ def hs():
 
 
 _CODE = {}
+CODE_PATCH = None   # optional code-object transformer (coverage instrumentation of the code under test, see fuzz.py)
 
 
 def om_for(store, om):
@@ -61,7 +62,10 @@ def cold_module():
     code = _CODE.get(old.__file__)
     if code is None:
         with open(old.__file__, "rb") as f:
-            code = _CODE[old.__file__] = compile(f.read(), old.__file__, "exec")
+            code = compile(f.read(), old.__file__, "exec")
+            if CODE_PATCH is not None:
+                code = CODE_PATCH(code)
+            _CODE[old.__file__] = code
     m = types.ModuleType("hashstore.filehashstore")
     m.__file__, m.__package__, m.__loader__, m.__spec__ = old.__file__, old.__package__, old.__loader__, old.__spec__
     sys.modules["hashstore.filehashstore"] = m
